@@ -774,7 +774,7 @@ PROPS = {
     'C06': P(gen_c06, 'Proved in Coq for all byte strings (Props/C06.v): the Gallina transcription of std::path (Components state machine, as_path trimming, parent, file_name, file_stem, extension, starts_with, ends_with, strip_prefix, eq, cmp, ancestors) and the typed-path model give the same answer: components from both ends, eq, cmp, has_root, file_name/stem/extension byte for byte, starts_with, ends_with; parent and ancestors identical as byte strings (C06_parent_bytes: s_parent l = u_parent l for all l; the next_back + as_path trimming of std computes the skip-back-keep-the-lead function of the model; C06_ancestors_bytes); strip_prefix succeeds for both or neither with equal remainders as paths (bytes differ exactly in known class D8, refuted-witness lemma). The transcription is diffed against the real std::path on every explored case (pair.c06).', NOTE_CORR),
     'C07': P(with_cons(gen_c07, encs=('u',)), 'Proved in Coq (Props/C07.v): for EVERY history of push / pop / set_file_name / clear / extend / collect / join / with_file_name and every pair of component-equal start buffers, the typed-path buffer and the std::path::PathBuf transcription are component-equal after every step and every boolean result agrees (C07_history, by induction over the history); a non-empty push is the same byte function on both sides, also when std carries the extra trailing / left by an empty push (relation Rb). Rb is kept by ALL eight operations over every history (C07_history_bytes; pop and set_file_name by the byte identity of the two parents, C07_pop_keeps_R, C07_set_file_name_keeps_R), so after any history a push or join of a non-empty path leaves byte-identical buffers (C07_history_then_push_bytes). Every explored history is also run on the real std::path::PathBuf (pair.hist: booleans, component equality, byte equality after non-empty pushes).', NOTE_CORR),
     'C08': P(with_cons(gen_c08, encs=('w',)), 'Proved in Coq for ALL pairs of byte strings: the model of WindowsEncoding::push equals the documented rule table Spec.join_spec (written over the grammar specification only), every history of pushes is the same fold of the table, empty b changes nothing, a prefixed b replaces a, the non-verbatim results are a (or its prefix) + optional separator + b, the verbatim step never lets a . or .. through (Props/C08.v: C08_bytes, C08_histories, C08_empty, C08_prefixed, C08_nonverbatim_bytes, C08_verbatim_step_clean; closed under the global context). join_spec itself is evaluated on the implementation output of every explored pair and push history (oracle_c08, oracle_hist). The component-level reading (a components followed by b components, a prefix followed by b for rooted b, bare drive without separator) is proved for all a without UNC/verbatim/device prefix (C08_comps_plain, C08_comps_disk, C08_comps_rooted_disk) and decided by the C10 oracle for the rest.', NOTE_CORR),
-    'C09': P(with_cons(gen_unary('c09')), 'Proved in Coq (Props/C09.v), Unix and Windows: parent is absent exactly when there is no component or the last one is a root or prefix; otherwise it is a leading slice of the input; pop truncates to it; the ancestors chain is finite. The components of the parent, READ AGAIN FROM SCRATCH, are those of the path without the last one -- at Unix from the back-step lemma of the core parser, at Windows for every input with all six prefix kinds and their look-alikes (C09_windows_parent, WinTrunc.v): the prefix grammar is stable under truncation of what follows the prefix (C09_prefix_truncation: every alternative is stable when its rest is shortened, failure of an alternative is inherited by every leading piece of the input), and the one exception, the verbatim prefix with the empty name truncated to nothing, cannot arise from a parent. Tied to the code for all 18 families on every explored case (oracle_c09 re-parses the returned bytes with the specification).', NOTE_CORR),
+    'C09': P(with_cons(gen_unary('c09')), 'Proved in Coq (Props/C09.v), Unix and Windows: parent is absent exactly when there is no component or the last one is a root or prefix; otherwise it is a leading slice of the input; pop truncates to it; the ancestors chain is finite. The components of the parent, READ AGAIN FROM SCRATCH, are those of the path without the last one -- at Unix from the back-step lemma of the core parser, at Windows for every input with all six prefix kinds and their look-alikes (C09_windows_parent, WinTrunc.v): the prefix grammar is stable under truncation of what follows the prefix (C09_prefix_truncation: every alternative is stable when its rest is shortened, failure of an alternative is inherited by every leading piece of the input), and the one exception, the verbatim prefix with the empty name truncated to nothing, cannot arise from a parent. The same holds along the whole ancestors chain (C09_windows_ancestors_chain). Tied to the code for all 18 families on every explored case (oracle_c09 re-parses the returned bytes with the specification).', NOTE_CORR),
     'C10': P(with_cons(gen_pairs('c10')), 'Proved in Coq (Props/C10.v): for any double-ended component iterator whose components are determined by their bytes, helpers::iter_after decides exactly the leading-run / trailing-run relation (C10_abstract_front); at Unix, for all byte strings: starts_with iff q components are a leading run of p, ends_with mirror image, strip_prefix succeeds iff starts_with and its remainder re-parses to the rest, equal paths start/end with each other, a joined with a relative b starts with a and stripping yields what b adds. For prefix-free Windows paths components are determined by their bytes and the same theorems hold over wspec (C10_windows_*_plain). With prefixes they are not: known finding D7; D10 and D15 are the two further Windows classes (refuted-witness lemmas); those paths are decided by oracle_c10 (component relations over the grammar spec, join-back, join consistency) on every explored pair.', NOTE_CORR),
     'C11': P(with_cons(gen_unary('c11')), 'Proved in Coq for all Unix byte strings (Props/C11.v): the normalised path read back is the lexical fold Spec.nfold of the input components, it contains no . or .., has the same root/absoluteness, and normalising again returns the same bytes (C11_unix_fold, C11_unix_clean, C11_unix_root, C11_unix_idempotent); the model fold equals Spec.nfold for any component list (C11_fold_is_nfold). Windows: the same three statements are proved for every prefix-free path whose names carry no drive look-alike (C11_windows_fold_plain, _idempotent_plain, _root_plain; C11_names_needed shows the hypothesis is necessary); paths with a prefix are decided by oracle_c11 on every explored well-formed path.', NOTE_CORR),
     'C12': P(with_cons(gen_pairs('c12', second='names')), 'Proved in Coq for all inputs (Props/C12.v): file_name is the last component when it is a normal name and absent otherwise (both encodings); stem, a dot and the extension reproduce the name when an extension exists and the stem is the whole name otherwise; the four documented cases of the split; Unix replacement by a single valid name n: the components are the old ones with the last replaced by n, so the file name is n and the parent is the old parent, and without a file name the result is the old path joined with n. The Windows replacement is decided by oracle_c12 on every explored (path, name) pair.', NOTE_CORR),
